@@ -61,3 +61,71 @@ def check_c06(prop, tier, seed):
         return 1
     log("[C06] held on everything explored (%.1fs)" % (time.time() - t0))
     return 0
+
+
+def generic_small(prop, tier, seed, mc_module, mc_consts, mc_invs, driver, driver_args, tv_module, tv_consts,
+                  verdict_names, rule, assumptions, level="model_checking", nontrivial_key=None, tv_shards=8):
+    """MC of a small spec + a driver on the real code + trace validation of its records."""
+    t0 = time.time()
+    wd = vlib.workdir("%s-%s" % (prop, tier))
+    vlib.build_harness()
+    mc = None
+    if mc_module:
+        cfg = vlib.tlc_cfg("Spec", mc_consts, mc_invs)
+        mc = vlib.run_tlc(mc_module, cfg, wd, "mc", workers=8, timeout=1500)
+        log("[%s] MC %s %s: %d states, %d distinct, %.1fs%s" % (
+            prop, mc_module, mc_consts, mc["states"], mc["distinct"], mc["wall"],
+            " VIOLATED " + mc["violated"] if mc["violated"] else ""))
+        if mc["error"] or mc["violated"] or mc["distinct"] == 0:
+            raise ToolError("model checking of %s failed: %s" % (mc_module, mc["out"]))
+    recs = os.path.join(wd, "recs.ndjson")
+    pr = vlib.run_bin(driver, driver_args + ["--seed", seed, "--out", recs], timeout=3000)
+    if pr.returncode != 0:
+        raise ToolError("%s failed: %s" % (driver, pr.stdout[-2000:]))
+    summary = json.loads(pr.stdout.strip().splitlines()[-1])
+    cfg = vlib.tlc_cfg("TSpec", tv_consts)
+    if not tv_consts:
+        cfg = cfg.replace("CONSTANTS\n", "")
+    tv = vlib.trace_validate(tv_module, cfg, recs, wd, "tv", shards=tv_shards)
+    if tv["incomplete"]:
+        raise ToolError("trace validation did not finish: %s" % tv["incomplete"])
+    log("[%s] %s: %s; %d records validated by %s in %.1fs" % (prop, driver, summary, tv["lines"], tv_module, tv["wall"]))
+    bad = sorted({v["id"] for v in tv["verdicts"] if v["name"] in verdict_names})
+    import fwcheck
+    samples = []
+    with open(recs) as f:
+        for i, line in enumerate(f):
+            if 2 <= i < 6:
+                samples.append(json.loads(line))
+    nscen = tv["scenarios"]
+    coverage = dict(
+        states=mc["distinct"] if mc else 0, transitions=mc["states"] if mc else 0,
+        traces_validated_against_impl=nscen,
+        evaluations=max(tv["lines"], 1), distinct_nontrivial=summary.get(nontrivial_key, nscen) if nontrivial_key else nscen,
+        rule=rule, samples=samples or ["(none)"], exhaustive=False, driver_summary=summary)
+    vlib.write_evidence(prop, tier, seed, level, coverage, time.time() - t0, len(bad), assumptions)
+    known = [k for k in vlib.load_known() if k.get("property") == prop and k.get("status") == "known"]
+    for k in known:
+        log("KNOWN-FINDING: property=%s %s" % (prop, k.get("description")))
+    if bad:
+        path = vlib.write_replay(prop, dict(property=prop, scenario=bad[0], verdicts=sorted(verdict_names),
+                                            actual=fwcheck.scenario_lines(recs, bad[0])))
+        log("[%s] %d violating scenario(s), first %s" % (prop, len(bad), bad[0]))
+        print("VIOLATION property=%s replay=%s" % (prop, path), flush=True)
+        return 1
+    log("[%s] held on everything explored (%.1fs)" % (prop, time.time() - t0))
+    return 0
+
+
+def check_c20(prop, tier, seed):
+    q = tier == "quick"
+    return generic_small(
+        prop, tier, seed,
+        "Ffi", {"MaxOps": 3 if q else 4, "MaxMachines": 2}, ["BoundedWrite", "NoLeak", "ErrorsWriteNothing"],
+        "ffi_driver", ["--scenarios", 300 if q else 3000, "--calls", 30 if q else 60],
+        "FfiTrace", {}, {"C20"},
+        rule="scenario = one maybenot_start (12 argument classes) + num_machines + K maybenot_on_events (random batches over the 10 event types, ids incl. usize::MAX and unknown, 4/25 with one NULL argument) + maybenot_stop, next to a Rust Framework over the same machines; non-trivial = actions written",
+        assumptions=["machines are deterministic (probability-1 transitions, constant distributions, unlimited budgets, no fractions) so the API's OS-seeded RNG and Instant::now() cannot matter",
+                     "the machine-string pointer and the pointer given to maybenot_stop are valid (documented safety contract)",
+                     "heap accounting through a counting global allocator in the driver process"],
+        nontrivial_key="actions")
